@@ -135,9 +135,10 @@ theorem output_valid_any_anchor (cfg : Config) (hp : PlainPrintNA cfg) (env : En
     ∃ P, Spec.parse (fmtRegExp cfg st.finalAst) = some (⟨cfg.ci, false⟩, P) :=
   classes_valid_any_anchor cfg hp env ws st h hseg hws
 
-/-- **C07 (validity in verbose mode, all inputs, at least one anchor)** the verbose text is accepted by the model of
-`Regex::new` under the flag it carries -/
-theorem output_valid_verbose (cfg : Config) (hp : VerbosePrint cfg) (env : Env) (ws : List Str) (st : Stages)
+/-- **C07 (validity in verbose mode, all inputs, any anchors)** whenever `RegExp::from` returns, the verbose text is
+accepted by the model of `Regex::new` under the flag it carries (with both anchors disabled the only failure of
+`RegExp::from` is the panic site `unanchored_build_only_site`) -/
+theorem output_valid_verbose (cfg : Config) (hp : VerbosePrintNA cfg) (env : Env) (ws : List Str) (st : Stages)
     (h : regExpFrom cfg env ws = .ok st) (hseg : ∀ w ∈ storedCases cfg env ws, SegOK env w) (hws : ws ≠ []) :
     ∃ P, Spec.parse (fmtRegExp cfg st.finalAst) = some (⟨cfg.ci, true⟩, P) :=
   classes_valid_verbose cfg hp env ws st h hseg hws
